@@ -18,9 +18,13 @@ def phf_entries(span_or_text, source=None):
         t = toks[i]
         if t.text == "}" and depth == 0:
             break
-        if t.kind not in ("str", "char"):
+        if t.kind == "num":
+            import re as _re
+            key = int(_re.sub(r"(u8|u16|u32|u64|usize|i32|i64)$", "", t.text).replace("_", ""), 0)
+        elif t.kind in ("str", "char"):
+            key = slicer.unquote(t.text)
+        else:
             raise slicer.SliceError("phf key is not a literal: %r" % t.text)
-        key = slicer.unquote(t.text)
         if not (toks[i + 1].text == "=" and toks[i + 2].text == ">"):
             raise slicer.SliceError("expected => after key %r" % key)
         i += 3
